@@ -328,7 +328,16 @@ func init() {
 			}
 			return 1500
 		},
-		Gen: c03GenNackgen,
+		// the application of the case (streaminfo_test.go): the order of its option list, the StreamInfo it hands to
+		// Unbind, what it does with its StreamInfo after Bind
+		Gen: func(r *Rng, tier string, idx int) Case {
+			ar := NewRng(r.s ^ 0xA9903) // its own stream: the case is the one generated before
+			cs := c03GenNackgen(r, tier, idx)
+			if cs.Class != "malformed" && ar.Chance(3, 4) {
+				cs.Ops = withApp(cs.Ops, genApp(ar, 3, 2, 0, 3))
+			}
+			return cs
+		},
 		Run: c03RunNackgen,
 	})
 }
@@ -523,7 +532,15 @@ type c03Nack struct {
 const c03Interval = 100 * time.Millisecond
 
 func c03RunNackgen(t *testing.T, ops []string, o *Out) {
+	app, ops := appOf(ops)
 	synctest.Test(t, func(t *testing.T) {
+		// what the application bound, per SSRC: its description of the stream and the object it handed to Bind
+		descs, lives := map[uint32]*interceptor.StreamInfo{}, map[uint32]*interceptor.StreamInfo{}
+		bindAs := func(desc *interceptor.StreamInfo) *interceptor.StreamInfo {
+			live := app.BindInfo(desc)
+			descs[desc.SSRC], lives[desc.SSRC] = desc, live
+			return live
+		}
 		var (
 			icpt    interceptor.Interceptor
 			t0      time.Time
@@ -598,12 +615,13 @@ func c03RunNackgen(t *testing.T, ops []string, o *Out) {
 					o.P("bad-op")
 					continue
 				}
-				f, err := nack.NewGeneratorInterceptor(
+				// options that set different fields commute: the list in the order the application wrote it
+				f, err := nack.NewGeneratorInterceptor(appShuffle(app, []nack.GeneratorOption{
 					nack.GeneratorSize(uint16(m["size"])),
 					nack.GeneratorSkipLastN(uint16(m["skip"])),
 					nack.GeneratorMaxNacksPerPacket(uint16(m["max"])),
 					nack.GeneratorInterval(c03Interval),
-				)
+				})...)
 				if err != nil {
 					o.P("err:other")
 					continue
@@ -638,7 +656,9 @@ func c03RunNackgen(t *testing.T, ops []string, o *Out) {
 				} else {
 					info.RTCPFeedback = []interceptor.RTCPFeedback{{Type: "nack", Parameter: "pli"}, {Type: "transport-cc"}}
 				}
+				info = bindAs(info)
 				readers[info.SSRC] = icpt.BindRemoteStream(info, source)
+				app.AfterBind(info)
 			case name == "bind" && c03Has(m, 1<<32-1, "ssrc", "fbl"):
 				// the stream's RTCPFeedback list by its code (streaminfo_test.go): any order, near-duplicates
 				fbl, okc := feedbackOfCode(m["fbl"])
@@ -646,7 +666,7 @@ func c03RunNackgen(t *testing.T, ops []string, o *Out) {
 					o.P("bad-op")
 					continue
 				}
-				info := &interceptor.StreamInfo{SSRC: uint32(m["ssrc"]), RTCPFeedback: fbl}
+				info := bindAs(&interceptor.StreamInfo{SSRC: uint32(m["ssrc"]), RTCPFeedback: fbl})
 				readers[info.SSRC] = icpt.BindRemoteStream(info, source)
 				for i, fb := range info.RTCPFeedback { // the StreamInfo is the caller's
 					if want, _ := feedbackOfCode(m["fbl"]); len(want) != len(info.RTCPFeedback) || want[i] != fb {
@@ -654,8 +674,15 @@ func c03RunNackgen(t *testing.T, ops []string, o *Out) {
 						break
 					}
 				}
+				app.AfterBind(info)
 			case name == "unbind" && c03Has(m, 1<<32-1, "ssrc"):
-				icpt.UnbindRemoteStream(&interceptor.StreamInfo{SSRC: uint32(m["ssrc"])})
+				// the stream is named by its SSRC: a StreamInfo rebuilt from it alone, or (app op) any other value the
+				// application may hold for that SSRC by now
+				ui := &interceptor.StreamInfo{SSRC: uint32(m["ssrc"])}
+				if desc := descs[ui.SSRC]; app != nil && desc != nil {
+					ui = app.UnbindInfo(desc, lives[ui.SSRC])
+				}
+				o.InfoGuard("UnbindRemoteStream", ui, func() { icpt.UnbindRemoteStream(ui) })
 			case (name == "rtp" && c03Has(m, 1<<32-1, "ssrc", "seq") && m["seq"] <= 65535) ||
 				((name == "rtperr" || name == "rtpbad") && c03Has(m, 1<<32-1, "ssrc")):
 				rd := readers[uint32(m["ssrc"])]
